@@ -145,3 +145,27 @@ QSORT_CMP = {
     ("tsk_table_sorter_sort_individuals_canonical", "individual_canonical_sort_t"): ("cmp_individual_canonical",),
     ("tsk_table_collection_build_index", "index_sort_t"): ("cmp_index_sort",),
 }
+
+
+def bookmark_cursor(ctx, P, rule="ORDER-BOOKMARK"):
+    ctx.rule(rule, "sorters that start at a bookmark (`start`) write the ragged metadata of the sorted rows beginning at "
+                   "metadata_offset[start]: the write cursor that indexes `->metadata + cursor` is initialised from the offset "
+                   "of row `start`, never from 0 (which would overwrite the unsorted prefix)")
+    tu = P.tus["tables"]
+    for name in ("tsk_table_sorter_sort_edges", "tsk_table_sorter_sort_migrations"):
+        fn = P.need(name, "tables")
+        F = Facts(P, fn)
+        # cursor: second operand of `X->metadata + cursor` used as memcpy destination
+        cursors = set()
+        for a, n in F.calls_to("tsk_memcpy") + F.calls_to("tsk_memmove"):
+            d = strip(n.kids[1])
+            if d is not None and d.k == "BinaryOperator" and d.op == "+" and estr(d.kids[0]).endswith("->metadata"):
+                c = strip(d.kids[1])
+                if c is not None and c.k == "DeclRefExpr":
+                    cursors.add(c.ref)
+        ctx.ob(rule, name + "|cursor", len(cursors) == 1, tu.loc(fn.node), "metadata write cursor(s): %s" % sorted(cursors))
+        for cur in cursors:
+            inits = [r for l, o, r, n in F.assigns if l == cur and o == "="]
+            ok = bool(inits) and all("metadata_offset[start]" in r for r in inits)
+            ctx.ob(rule, "%s|%s-init" % (name, cur), ok, tu.loc(fn.node),
+                   "`%s` initialised with %s" % (cur, inits))
